@@ -1,4 +1,5 @@
-from . import p_table
+from . import p_table, p_flow
 PROPS = {
     "C03": p_table.run, "C04": p_table.run, "C05": p_table.run,
+    "C13": p_flow.run, "C14": p_flow.run, "C19": p_flow.run,
 }
